@@ -87,22 +87,36 @@ Capture(g, open, first, last, any, allws) ==
 \* a raw token also carries ln, its line number; a NEWLINE with s = "" is the implicit one the scanner adds at the end of input
 \* g: raw tokens consumed, idx: position in the loop, ind: the block form was recognised, n: indentation levels opened inside
 \* the block, ls: line numbers captured so far (the first token of each line puts its line in)
-\* (ls[i] = <<line number, column of the token that put the line in>>)
-RECURSIVE WCapture(_, _, _, _, _)
-WCapture(g, idx, ind, n, ls) ==
-  IF g >= Len(Raw) THEN [g |-> g, ls |-> ls, ind |-> ind, clear |-> FALSE, stop |-> 0, by |-> "eof"]     \* the generator is exhausted: the loop just ends
+\* (ls[i] = <<line number, column and type of the token that put the line in>>)
+\* lead: only blank / comment lines since the header (the block may still begin); hdr: nothing but the line end followed the colon;
+\* bc: width of the block's indentation
+RECURSIVE WCapture(_, _, _, _, _, _, _, _)
+\* a comment written left of the block after its last statement is not part of the block, nor is what follows it
+RECURSIVE TailStart(_, _)
+TailStart(ls, k) == IF k > 0 /\ ls[k][3] \in {"COMMENT", "NL"} THEN TailStart(ls, k - 1) ELSE k      \* index of the last code line
+TrimBlock(ls, bc) ==
+  LET t == TailStart(ls, Len(ls))
+      cut == {i \in (t + 1)..Len(ls) : ls[i][3] = "COMMENT" /\ ls[i][2] < bc}
+  IN IF cut = {} THEN ls ELSE SubSeq(ls, 1, (CHOOSE i \in cut : \A j \in cut : i <= j) - 1)
+WCapture(g, idx, ind, n, ls, lead, hdr, bc) ==
+  IF g >= Len(Raw) THEN [g |-> g, ls |-> IF ind THEN TrimBlock(ls, bc) ELSE ls, ind |-> ind, clear |-> FALSE, stop |-> 0, by |-> "eof", error |-> ""]
   ELSE LET t == Raw[g + 1]
-           keep == IF \E i \in 1..Len(ls) : ls[i][1] = t.ln THEN ls ELSE Append(ls, <<t.ln, t.b>>)
-       IN IF idx = 0 /\ t.ty = "NEWLINE" THEN WCapture(g + 1, idx + 1, ind, n, ls)
+           keep == IF \E i \in 1..Len(ls) : ls[i][1] = t.ln THEN ls ELSE Append(ls, <<t.ln, t.b, t.ty>>)
+           code == t.ty \notin {"COMMENT", "NL", "WS"} \/ idx = 0
+           lead2 == lead /\ ~code
+           bad == code /\ lead /\ hdr /\ ~ind /\ t.ty # "ENDMARKER"          \* a statement where the block had to begin
+       IN IF idx = 0 /\ t.ty = "NEWLINE" THEN WCapture(g + 1, idx + 1, ind, n, ls, lead, TRUE, bc)
           ELSE IF t.ty = "INDENT"
-               THEN IF ~ind /\ idx = 1 THEN WCapture(g + 1, idx + 1, TRUE, n, ls)
-                    ELSE WCapture(g + 1, idx + 1, ind, n + 1, keep)
+               THEN IF ~ind /\ lead /\ idx > 0 THEN WCapture(g + 1, idx + 1, TRUE, n, ls, FALSE, hdr, t.e - t.b)
+                    ELSE IF bad THEN [g |-> g + 1, ls |-> ls, ind |-> ind, clear |-> FALSE, stop |-> 0, by |-> "error", error |-> "SyntaxError"]
+                    ELSE WCapture(g + 1, idx + 1, ind, n + 1, keep, lead2, hdr, bc)
           ELSE IF t.ty = "DEDENT"
-               THEN IF n > 0 THEN WCapture(g + 1, idx + 1, ind, n - 1, ls)
-                    ELSE [g |-> g + 1, ls |-> ls, ind |-> ind, clear |-> TRUE, stop |-> t.ln, by |-> "dedent"]
-          ELSE IF t.ty = "NEWLINE" /\ ~ind THEN [g |-> g + 1, ls |-> ls, ind |-> ind, clear |-> FALSE, stop |-> t.ln, by |-> "newline"]
-          ELSE IF t.ty = "NEWLINE" /\ t.s = "" THEN WCapture(g + 1, idx + 1, ind, n, ls)
-          ELSE WCapture(g + 1, idx + 1, ind, n, keep)
+               THEN IF n > 0 THEN WCapture(g + 1, idx + 1, ind, n - 1, ls, lead, hdr, bc)
+                    ELSE [g |-> g + 1, ls |-> IF ind THEN TrimBlock(ls, bc) ELSE ls, ind |-> ind, clear |-> TRUE, stop |-> t.ln, by |-> "dedent", error |-> ""]
+          ELSE IF t.ty = "NEWLINE" /\ ~ind THEN [g |-> g + 1, ls |-> ls, ind |-> ind, clear |-> FALSE, stop |-> t.ln, by |-> "newline", error |-> ""]
+          ELSE IF t.ty = "NEWLINE" /\ t.s = "" THEN WCapture(g + 1, idx + 1, ind, n, ls, lead, hdr, bc)
+          ELSE IF bad THEN [g |-> g + 1, ls |-> ls, ind |-> ind, clear |-> FALSE, stop |-> 0, by |-> "error", error |-> "SyntaxError"]
+          ELSE WCapture(g + 1, idx + 1, ind, n, keep, lead2, hdr, bc)
 
 \* ---- peek(): fill the cache until index < Len(cache) -------------------------------------
 RECURSIVE Fill(_, _, _, _, _, _)
@@ -110,11 +124,12 @@ RECURSIVE Fill(_, _, _, _, _, _)
 Fill(g, c, st, cm, wm, steps) ==
   IF index < Len(c) \/ steps = 0 THEN [g |-> g, c |-> c, st |-> st, cm |-> cm, wm |-> wm, error |-> ""]
   ELSE IF wm
-       THEN LET r == WCapture(g, 0, FALSE, 0, <<>>)
+       THEN LET r == WCapture(g, 0, FALSE, 0, <<>>, TRUE, FALSE, 0)
                 at == c[Len(c)].e                              \* the capture is placed at the end of the header's last token
                 tok == [ty |-> "MACRO_PARAM", s |-> "", b |-> at, e |-> at, ln |-> c[Len(c)].ln, ls |-> r.ls, ind |-> r.ind,
                         hdr |-> c[Len(c)].ln, stop |-> r.stop, by |-> r.by]
-            IN Fill(r.g, Append(c, tok), st, cm, wm /\ ~r.clear, steps - 1)
+            IN IF r.error # "" THEN [g |-> r.g, c |-> c, st |-> st, cm |-> cm, wm |-> wm, error |-> r.error]
+               ELSE Fill(r.g, Append(c, tok), st, cm, wm /\ ~r.clear, steps - 1)
   ELSE IF cm /\ ~withMacro
        THEN LET r == Capture(g, <<>>, 0, 0, FALSE, TRUE) IN
             IF r.error # "" THEN [g |-> r.g, c |-> c, st |-> st, cm |-> cm, wm |-> wm, error |-> r.error]
@@ -193,7 +208,7 @@ Range(a, b) == [i \in 1..(IF b >= a THEN b - a + 1 ELSE 0) |-> a + i - 1]
 WithCaptureIsBlock == \A i \in 1..Len(cache) : IsWithParam(cache[i]) =>
                          LET t == cache[i] IN
                          LET lns == [k \in 1..Len(t.ls) |-> t.ls[k][1]] IN
-                         CASE t.by = "dedent"  -> lns = Range(t.stop - Len(lns), t.stop - 1)       \* contiguous, ending right before the line of the DEDENT
+                         CASE t.by = "dedent"  -> \E last \in 0..(t.stop - 1) : lns = Range(last - Len(lns) + 1, last)   \* contiguous, ending before the line of the DEDENT
                            [] t.by = "newline" -> lns = <<>> \/ lns = Range(t.stop - Len(lns) + 1, t.stop)   \* contiguous, up to the line its NEWLINE is on
                            [] OTHER -> TRUE
 WithFlagClearedAtDedent == [][(Len(cache') > Len(cache) /\ IsWithParam(cache'[Len(cache')]) /\ cache'[Len(cache')].ind /\ cache'[Len(cache')].stop > 0)
